@@ -76,6 +76,10 @@ func c01Witnesses() []c01Witness {
 				J{"securitySchemes": J{"api-key": J{"type": "apiKey", "in": "header", "name": "X-Key"}}})},
 		{Name: "two-cookie-parameters", FW: "chi",
 			Doc: wDoc(J{"/a": J{"get": wOp("getA", J{"parameters": []interface{}{J{"name": "a", "in": "cookie", "schema": J{"type": "string"}}, J{"name": "b", "in": "cookie", "schema": J{"type": "string"}}}})}}, nil)},
+		{Name: "path-parameters-whose-variable-is-a-keyword", FW: "chi", Client: true,
+			Doc: wDoc(J{"/a/{Type}/{range_}/{_func}": J{"get": wOp("getA", J{"parameters": []interface{}{
+				J{"name": "Type", "in": "path", "required": true, "schema": J{"type": "string"}}, J{"name": "range_", "in": "path", "required": true, "schema": J{"type": "string"}},
+				J{"name": "_func", "in": "path", "required": true, "schema": J{"type": "integer"}}}})}}, nil)},
 		{Name: "leading-digit-schema-with-nested-map", 
 			Doc: wDoc(J{}, J{"schemas": J{"1st": objWith(J{"count": J{"type": "object", "properties": J{"n": J{"type": "string"}}, "additionalProperties": J{"type": "integer"}}})}})},
 	}
